@@ -13,13 +13,13 @@ func init() {
 		Doc: "no single Read call on an io.Reader outside a loop whose byte count slices the buffer that is then used as the complete data (a Read may return fewer bytes than available)"})
 	register(&Rule{Name: "LINT-RELIDX", Floor: 0, Run: ruleLintRelIdx, Fixture: "fixture.relativeIndex",
 		Doc: "an index obtained from Index*(s[lo:], …) is relative to lo; it must not be used to slice or index s itself without adding lo"})
-	register(&Rule{Name: "LINT-NARROW", Floor: 2, Run: ruleLintNarrow, Fixture: "fixture.narrow",
+	register(&Rule{Name: "LINT-NARROW", Floor: 0, Run: ruleLintNarrow, Fixture: "fixture.narrow",
 		Doc: "every int -> byte/uint8 conversion of a value parsed by strconv.Atoi is dominated by a range test 0..255 of that value"})
-	register(&Rule{Name: "LINT-NILPART", Floor: 4, Run: ruleLintNilPart, Fixture: "fixture.nilPart",
+	register(&Rule{Name: "LINT-NILPART", Floor: 0, Run: ruleLintNilPart, Fixture: "fixture.nilPart",
 		Doc: "a dereference through a pointer loaded from a part of an artifact (BuildArtifact.Certificate/.Request, PemFileContent.*) is dominated by a nil test of the same access path: any part may be absent from a PEM file"})
 	register(&Rule{Name: "LINT-TYPEASSERT", Floor: 0, Run: ruleLintTypeAssert, Fixture: "fixture.assertNoOk",
 		Doc: "no single-result type assertion in module code (it panics on a mismatch)"})
-	register(&Rule{Name: "LINT-IDXNEG", Floor: 4, Run: ruleLintIdxNeg, Fixture: "fixture.indexNoTest",
+	register(&Rule{Name: "LINT-IDXNEG", Floor: 0, Run: ruleLintIdxNeg, Fixture: "fixture.indexNoTest",
 		Doc: "the result of Index/LastIndex is not used as a slice bound without a test against -1 (result+1 as a low bound is fine); two named exceptions"})
 }
 
@@ -419,8 +419,8 @@ func ruleLintTypeAssert(c *Ctx, r *Rep) {
 
 // idxNegExceptions: Index results used as a bound without a -1 test that are safe for a stated reason.
 var idxNegExceptions = map[string]string{
-	"filesystem.fsMetadata.artifactFileName|strings.LastIndex|high":  "configFileName either passed the .yaml/.yml/.json suffix filter of the directory walk or was built as alias + \".yaml\": it always contains a dot",
-	"filesystem.FsDb.importCertConfigFile|strings.LastIndex|high": "configPath is a walked file name that passed the suffix filter: it always contains a dot; a missing slash gives -1+1 = 0",
+	"filesystem.fsMetadata.artifactFileName|strings.LastIndex|high": "configFileName either passed the .yaml/.yml/.json suffix filter of the directory walk or was built as alias + \".yaml\": it always contains a dot",
+	"filesystem.FsDb.importCertConfigFile|strings.LastIndex|high":   "configPath is a walked file name that passed the suffix filter: it always contains a dot; a missing slash gives -1+1 = 0",
 }
 
 func ruleLintIdxNeg(c *Ctx, r *Rep) {
